@@ -837,9 +837,27 @@ impl Row for Vec<Val> {
     }
 }
 
+static TICK: AtomicU64 = AtomicU64::new(0);
+/// disturb rayon's schedule a little: every few closure calls yield the worker thread, now and
+/// then spin for a moment (closures stay pure: nothing observable depends on it)
+fn perturb() {
+    let t = TICK.fetch_add(1, Ordering::Relaxed);
+    if t % 5 == 0 {
+        std::thread::yield_now();
+    }
+    if t % 97 == 0 {
+        for _ in 0..200 {
+            std::hint::spin_loop();
+        }
+    }
+}
+
 fn filt<T: Row>(c: PCollection<T>, p: &PFun) -> PCollection<T> {
     let p = p.clone();
-    c.filter(move |r: &T| pf(&p, &r.to_val()))
+    c.filter(move |r: &T| {
+        perturb();
+        pf(&p, &r.to_val())
+    })
 }
 fn rep<T: Row>(c: PCollection<T>, n: usize) -> PCollection<T> {
     c.flat_map(move |r: &T| vec![r.clone(); n])
@@ -923,7 +941,10 @@ pub fn apply_step(p: &Pipeline, c: Coll, s: &Step) -> R<Coll> {
     Ok(match (s, c) {
         (Step::Map(f), U(c)) => {
             let f = f.clone();
-            U(c.map(move |x: &Val| ef(&f, x)))
+            U(c.map(move |x: &Val| {
+                perturb();
+                ef(&f, x)
+            }))
         }
         (Step::Filter(p), U(c)) => U(filt(c, p)),
         (Step::Filter(p), KV(c)) => KV(filt(c, p)),
@@ -950,12 +971,18 @@ pub fn apply_step(p: &Pipeline, c: Coll, s: &Step) -> R<Coll> {
         }
         (Step::KeyBy(f), U(c)) => {
             let f = f.clone();
-            KV(c.key_by(move |x: &Val| ef(&f, x)))
+            KV(c.key_by(move |x: &Val| {
+                perturb();
+                ef(&f, x)
+            }))
         }
         (Step::Unkey, KV(c)) => U(c.map(|r: &(Val, Val)| pair(r.0.clone(), r.1.clone()))),
         (Step::MapValues(f), KV(c)) => {
             let f = f.clone();
-            KV(c.map_values(move |v: &Val| ef(&f, v)))
+            KV(c.map_values(move |v: &Val| {
+                perturb();
+                ef(&f, v)
+            }))
         }
         (Step::FilterValues(p), KV(c)) => {
             let p = p.clone();
